@@ -1719,15 +1719,17 @@ func (r *TypeClassSummonContext) summonTupleGenericRepr(ctx CurrentContext, tc m
 			arity := fp.Min(typeArgs.Size(), max.Product-1)
 			//arity := typeArgs.Size()
 
-			tp := seq.Map(typeArgs, func(f metafp.TypeInfoExpr) string {
-				return f.TypeName(r.w, ctx.working)
-			}).Take(arity).MakeString(",")
-
 			if r.implicitTypeInference {
 				return fmt.Sprintf(`%s.HList%d`,
 					aspk, arity,
 				)
 			}
+
+			// naming the types imports their packages: only when the names are written out
+			tp := seq.Map(typeArgs, func(f metafp.TypeInfoExpr) string {
+				return f.TypeName(r.w, ctx.working)
+			}).Take(arity).MakeString(",")
+
 			return fmt.Sprintf(`%s.HList%d[%s]`,
 				aspk, arity, tp,
 			)
@@ -1739,16 +1741,17 @@ func (r *TypeClassSummonContext) summonTupleGenericRepr(ctx CurrentContext, tc m
 			arity := fp.Min(typeArgs.Size(), max.Product-1)
 			//arity := typeArgs.Size()
 
-			tp := seq.Map(typeArgs, func(f metafp.TypeInfoExpr) string {
-				return f.TypeName(r.w, ctx.working)
-			}).Take(arity).MakeString(",")
-
 			hlistToTuple := func() string {
 				if r.implicitTypeInference && !explicit {
 					return fmt.Sprintf(`%s.TupleFromHList%d`,
 						productpk, arity,
 					)
 				} else {
+					// naming the types imports their packages: only when the names are written out
+					tp := seq.Map(typeArgs, func(f metafp.TypeInfoExpr) string {
+						return f.TypeName(r.w, ctx.working)
+					}).Take(arity).MakeString(",")
+
 					return fmt.Sprintf(`%s.TupleFromHList%d[%s]`,
 						productpk, arity, tp,
 					)
